@@ -131,6 +131,39 @@ int api_vard(int kind, bool coll, int ncid, int varid, MPI_Datatype filetype, vo
     return coll ? ncmpi_get_vard_all(ncid, varid, filetype, buf, bufcount, bt) : ncmpi_get_vard(ncid, varid, filetype, buf, bufcount, bt);
 }
 
+// ---- multi-variable
+int api_m_typed(int kind, int form, bool coll, int ncid, int nvars, int *varids, MPI_Offset *const *s, MPI_Offset *const *c, MPI_Offset *const *st, MPI_Offset *const *im, void **bufs, int mt) {
+    switch (mt) {
+#define XM(e, n, ct)                                                                                                                                      \
+    case e:                                                                                                                                                 \
+        if (kind == K_PUT) switch (form) {                                                                                                                  \
+            case F_VARA: return coll ? ncmpi_mput_vara_##n##_all(ncid, nvars, varids, s, c, (ct *const *)bufs) : ncmpi_mput_vara_##n(ncid, nvars, varids, s, c, (ct *const *)bufs); \
+            case F_VARS: return coll ? ncmpi_mput_vars_##n##_all(ncid, nvars, varids, s, c, st, (ct *const *)bufs) : ncmpi_mput_vars_##n(ncid, nvars, varids, s, c, st, (ct *const *)bufs); \
+            case F_VARM: return coll ? ncmpi_mput_varm_##n##_all(ncid, nvars, varids, s, c, st, im, (ct *const *)bufs) : ncmpi_mput_varm_##n(ncid, nvars, varids, s, c, st, im, (ct *const *)bufs); \
+            default: return NC_EINVAL; }                                                                                                                    \
+        else switch (form) {                                                                                                                                \
+            case F_VARA: return coll ? ncmpi_mget_vara_##n##_all(ncid, nvars, varids, s, c, (ct **)bufs) : ncmpi_mget_vara_##n(ncid, nvars, varids, s, c, (ct **)bufs); \
+            case F_VARS: return coll ? ncmpi_mget_vars_##n##_all(ncid, nvars, varids, s, c, st, (ct **)bufs) : ncmpi_mget_vars_##n(ncid, nvars, varids, s, c, st, (ct **)bufs); \
+            case F_VARM: return coll ? ncmpi_mget_varm_##n##_all(ncid, nvars, varids, s, c, st, im, (ct **)bufs) : ncmpi_mget_varm_##n(ncid, nvars, varids, s, c, st, im, (ct **)bufs); \
+            default: return NC_EINVAL; }
+        TYPES(XM)
+    }
+    return NC_EINVAL;
+}
+int api_m_flex(int kind, int form, bool coll, int ncid, int nvars, int *varids, MPI_Offset *const *s, MPI_Offset *const *c, MPI_Offset *const *st, MPI_Offset *const *im, void **bufs,
+               const MPI_Offset *bufcounts, const MPI_Datatype *bts) {
+    if (kind == K_PUT) switch (form) {
+        case F_VARA: return coll ? ncmpi_mput_vara_all(ncid, nvars, varids, s, c, bufs, bufcounts, bts) : ncmpi_mput_vara(ncid, nvars, varids, s, c, bufs, bufcounts, bts);
+        case F_VARS: return coll ? ncmpi_mput_vars_all(ncid, nvars, varids, s, c, st, bufs, bufcounts, bts) : ncmpi_mput_vars(ncid, nvars, varids, s, c, st, bufs, bufcounts, bts);
+        case F_VARM: return coll ? ncmpi_mput_varm_all(ncid, nvars, varids, s, c, st, im, bufs, bufcounts, bts) : ncmpi_mput_varm(ncid, nvars, varids, s, c, st, im, bufs, bufcounts, bts);
+        default: return NC_EINVAL; }
+    switch (form) {
+        case F_VARA: return coll ? ncmpi_mget_vara_all(ncid, nvars, varids, s, c, bufs, bufcounts, bts) : ncmpi_mget_vara(ncid, nvars, varids, s, c, bufs, bufcounts, bts);
+        case F_VARS: return coll ? ncmpi_mget_vars_all(ncid, nvars, varids, s, c, st, bufs, bufcounts, bts) : ncmpi_mget_vars(ncid, nvars, varids, s, c, st, bufs, bufcounts, bts);
+        case F_VARM: return coll ? ncmpi_mget_varm_all(ncid, nvars, varids, s, c, st, im, bufs, bufcounts, bts) : ncmpi_mget_varm(ncid, nvars, varids, s, c, st, im, bufs, bufcounts, bts);
+        default: return NC_EINVAL; }
+}
+
 // ---- attributes
 int api_put_att(int ncid, int varid, const char *name, int xtype, MPI_Offset n, const void *buf, int mt) {
     switch (mt) {
